@@ -94,3 +94,18 @@ package main
 //@   invariant nwrites(clientConn) == old(nwrites(clientConn)) && closed(clientConn) == old(closed(clientConn))
 //@   invariant possibleTransports != nil && (forall k pb.TransportType :: k in possibleTransports ==> possibleTransports[k] != nil)
 //@   invariant !held(&regManager.registeredDecoys.m) && rheld(&regManager.registeredDecoys.m) == 0
+
+// The accept-side wrapper of the handler (structural clauses): the close of the client connection is scheduled before
+// anything else can return (so every path - including the handler's early returns - closes it, and nothing closes it
+// earlier), the descriptor is put back into non-blocking mode before the handler runs (deadlines do not work on a
+// blocking descriptor - the classification deadline of C03 and the relay's stall timeouts depend on it), and the
+// handler is given this very connection together with the original destination read from its descriptor (C02: the
+// registration lookup is scoped to that destination).
+//@ func (cm *connManager) handleNewConn(regManager *cj.RegistrationManager, clientConn *net.TCPConn)
+//@   atcall net.conn).Close before: snap closeScheduled := true
+//@   atcall net.conn).File before: assert @C03: defined(closeScheduled)
+//@   atcall getOriginalDst after: snap dst := res0
+//@   atcall SetNonblock before: snap nonblocking := true
+//@   atcall handleNewTCPConn before: assert @C02 @C03: defined(dst) && arg3 == dst && arg1 == regManager && unboxptr(arg2, *net.TCPConn) == clientConn && defined(nonblocking) && defined(closeScheduled)
+//@   ensures @C03: defined(closeScheduled)
+//@   checks structure
